@@ -17,9 +17,11 @@ class _FieldOfDressed:
         self.name = name
         self.isnplikearray = False
 
+        self.isref = False
         fnames = [ff.name for ff in _XoStruct._fields]
         if self.name in fnames:
             ftype = getattr(_XoStruct, self.name).ftype
+            self.isref = isinstance(ftype, Ref)
             if hasattr(ftype, "_itemtype"):  # is xo object
                 if hasattr(ftype._itemtype, "_dtype"):  # valid nplike object
                     self.isnplikearray = True
@@ -32,7 +34,19 @@ class _FieldOfDressed:
             else:
                 return getattr(container._xobject, self.name).to_nplike()
         elif hasattr(container, "_dressed_" + self.name):
-            return getattr(container, "_dressed_" + self.name)
+            dressed = getattr(container, "_dressed_" + self.name)
+            if self.isref:
+                # the dressed object kept from an assignment is returned only
+                # as long as it is what the reference in the buffer denotes
+                # (the container may be a copy made in another buffer)
+                target = getattr(container._xobject, self.name)
+                if (
+                    target is None
+                    or target._buffer is not dressed._xobject._buffer
+                    or target._offset != dressed._xobject._offset
+                ):
+                    return target
+            return dressed
         else:
             return getattr(container._xobject, self.name)
 
